@@ -38,6 +38,10 @@ pub enum InnerFault {
     Honest,
     Message(Fault),
     Prover(PFault),
+    /// Byzantine strategy: in query round `round`, FRI step `step`, two coset evaluations that are not the queried one
+    /// are shifted along the kernel of the folding map (the interpolated value at beta is unchanged): only the
+    /// Merkle opening of that coset can notice.
+    KernelTamper { round: usize, step: usize },
 }
 
 impl InnerFault {
@@ -46,6 +50,7 @@ impl InnerFault {
             InnerFault::Honest => "honest".into(),
             InnerFault::Message(m) => format!("message.{}.{}", m.kind(), component(m.path()).split('/').take(4).collect::<Vec<_>>().join("/")),
             InnerFault::Prover(p) => format!("prover.{}", p.kind()),
+            InnerFault::KernelTamper { .. } => "strategy.fri_coset_kernel_tamper".into(),
         }
     }
 }
@@ -64,6 +69,10 @@ pub fn gen(rng: &mut Rng, tier: Tier) -> Value {
         1 => Strat::ConstantArityBits(r.range(1, 3), r.range(0, 3)),
         _ => Strat::Fixed((0..r.range(0, 2)).map(|_| r.range(1, 3)).collect()),
     };
+    if st.cfg.zero_knowledge && matches!(st.cfg.strategy, Strat::Fixed(_)) {
+        // not an admissible zk configuration (see Cfg::draw: the builder's blinding fixed point diverges)
+        st.cfg.strategy = Strat::ConstantArityBits(r.range(1, 3), r.range(0, 2));
+    }
     let mut rs = rng.sub("schedule");
     let mut re = rng.sub("entropy");
     serde_json::to_value(Case {
@@ -127,6 +136,73 @@ fn viol(rep: &mut Report, case: &Case, f: &InnerFault, oracle: &str, detail: Str
     rep.violation("C06", oracle, &format!("C06|{oracle}|{}", f.kind()), detail, serde_json::to_value(&c).unwrap());
 }
 
+fn rev_bits(x: usize, bits: usize) -> usize {
+    let mut r = 0;
+    for i in 0..bits {
+        if x >> i & 1 == 1 {
+            r |= 1 << (bits - 1 - i);
+        }
+    }
+    r
+}
+
+/// The proof with two evaluations of one FRI coset shifted so that the fold at beta is unchanged.
+fn kernel_tamper(data: &CircuitData<F, PC, D>, proof: &ProofWithPublicInputs<F, PC, D>, round: usize, step: usize) -> Option<ProofWithPublicInputs<F, PC, D>> {
+    use plonky2::field::extension::Extendable;
+    use plonky2::field::types::Field;
+    type FE = <F as Extendable<D>>::Extension;
+    let common = &data.common;
+    let ch = guarded(|| proof.get_challenges(proof.get_public_inputs_hash(), &data.verifier_only.circuit_digest, common)).ok()?.ok()?;
+    let fc = &ch.fri_challenges;
+    let arities = &common.fri_params.reduction_arity_bits;
+    if round >= fc.fri_query_indices.len() || step >= arities.len() || arities[step] < 2 {
+        return None;
+    }
+    let lde_bits = common.fri_params.lde_bits();
+    let mut idx = fc.fri_query_indices[round];
+    let mut x: F = F::MULTIPLICATIVE_GROUP_GENERATOR * F::primitive_root_of_unity(lde_bits).exp_u64(rev_bits(idx, lde_bits) as u64);
+    for a in &arities[..step] {
+        idx >>= *a;
+        x = x.exp_power_of_2(*a);
+    }
+    let a = arities[step];
+    let arity = 1usize << a;
+    let within = idx & (arity - 1);
+    let g = F::primitive_root_of_unity(a);
+    let coset_start = x * g.exp_u64((arity - rev_bits(within, a)) as u64);
+    let point = |j: usize| -> FE { FE::from(coset_start * g.exp_u64(rev_bits(j, a) as u64)) };
+    let beta = fc.fri_betas[step];
+    let lagrange = |j: usize| -> FE {
+        let pj = point(j);
+        let mut num = FE::ONE;
+        let mut den = FE::ONE;
+        for k in 0..arity {
+            if k != j {
+                num *= beta - point(k);
+                den *= pj - point(k);
+            }
+        }
+        num * den.inverse()
+    };
+    let others: Vec<usize> = (0..arity).filter(|j| *j != within).collect();
+    let (ja, jb) = (others[0], others[others.len() - 1]);
+    if ja == jb {
+        return None;
+    }
+    let (la, lb) = (lagrange(ja), lagrange(jb));
+    if la == FE::ZERO || lb == FE::ZERO {
+        return None;
+    }
+    let mut p = proof.clone();
+    let evals = &mut p.proof.opening_proof.query_round_proofs[round].steps[step].evals;
+    if evals.len() != arity {
+        return None;
+    }
+    evals[ja] += lb;
+    evals[jb] -= la;
+    Some(p)
+}
+
 fn exec_o<OC: GenericConfig<D, F = F>>(case: &Case, rep: &mut Report) {
     let (built, proof) = match honest_accepted::<PC>(&case.st, &case.sched, &case.entropy, rep) {
         Some(x) => x,
@@ -178,6 +254,22 @@ fn exec_o<OC: GenericConfig<D, F = F>>(case: &Case, rep: &mut Report) {
         for _ in 0..2 {
             plan_f.push(InnerFault::Prover(PFault { cell: Some((r.usize(n * nw.min(80)), "plus1".into(), 0)), ..Default::default() }));
         }
+        // kernel tampers: every FRI step of arity >= 4, first and last query round; steps whose layer lies entirely in the cap first
+        {
+            let fp = &built.data.common.fri_params;
+            let q = fp.config.num_query_rounds;
+            let mut steps: Vec<usize> = (0..fp.reduction_arity_bits.len()).filter(|s| fp.reduction_arity_bits[*s] >= 2).collect();
+            steps.sort_by_key(|s| proof.proof.opening_proof.query_round_proofs[0].steps[*s].merkle_proof.siblings.len());
+            for s in steps.into_iter().take(3) {
+                if proof.proof.opening_proof.query_round_proofs[0].steps[s].merkle_proof.siblings.is_empty() {
+                    rep.probe("c06.fri_layer_entirely_in_cap");
+                }
+                plan_f.push(InnerFault::KernelTamper { round: 0, step: s });
+                if q > 1 {
+                    plan_f.push(InnerFault::KernelTamper { round: q - 1, step: s });
+                }
+            }
+        }
         if cfg!(feature = "hooks") {
             plan_f.push(InnerFault::Prover(PFault { knobs: Knobs { z_init: Some(0), ..Default::default() }, ..Default::default() }));
             for j in 0..built.data.common.config.num_challenges {
@@ -207,8 +299,17 @@ fn exec_o<OC: GenericConfig<D, F = F>>(case: &Case, rep: &mut Report) {
                 Some(p) => p,
                 None => continue,
             },
+            InnerFault::KernelTamper { round, step } => match kernel_tamper(&built.data, &proof, *round, *step) {
+                Some(p) => p,
+                None => continue,
+            },
         };
-        let native = built.verify(&inner_proof).is_ok();
+        let native_res = built.verify(&inner_proof);
+        if let (InnerFault::KernelTamper { .. }, Err(e)) = (f, &native_res) {
+            // self-validation of the strategy: the fold is unchanged, so the only native check that can fail is the Merkle opening
+            rep.probe(if e.to_lowercase().contains("merkle") { "c06.kernel_tamper.natively_rejected_by_merkle_check" } else { "c06.kernel_tamper.natively_rejected_by_another_check" });
+        }
+        let native = native_res.is_ok();
         let (outer_ok, why) = outer_accepts(&outer, &built.data, &inner_proof, &case.entropy);
         rep.fault(&f.kind().split('.').take(3).collect::<Vec<_>>().join("."));
         rep.case(base_sig ^ hash_value(&serde_json::to_value(f).unwrap()), *f == InnerFault::Honest || inner_proof != proof);
